@@ -53,6 +53,10 @@ CLAIMED = {
          "return or raise ParserError with 1 <= line <= K; catalogued grammar faults injected at a symbolic position into valid rendered "
          "documents must be reported at the injected line", "DESIGN.md 4/C05",
          "symbolic execution of real code + z3 (finite line alphabets merged by the parser's own predicates; symbolic fault position)"),
+ "C06": ("the real ScenarioOutlineBuilder expands a parsed outline whose row cells are one symbolic choice over hostile value tuples "
+         "(all str operations lifted pointwise; equality with a single-pass reference substitution decided by z3), table-API histories after "
+         "a first expansion, and a cvc5 str.replace_all identity over unbounded bracket-free strings for the replacement chain read from the live code",
+         "DESIGN.md 4/C06", "symbolic execution of real code + z3; SMT-LIB side query (cvc5 strings)"),
 }
 NA_REASON = "check not built yet in this round (planned, see DESIGN.md section 4)"
 checks = []
